@@ -747,11 +747,13 @@ def check(run, props):
         if j % 2:
             h2 = [op for op in h2 if op['op'] != 'close']
         bigdecl.append((3 * 10 ** 6 + j, h2, False))
-    if run.quick and len(items) > 4000:
+    cap = 4000 if run.quick else 30000          # TLC checks every history; the implementation replays a seeded sample of them
+    run.extra['histories_total'] = len(items)
+    if len(items) > cap:
         keep = [it for it in items if it[2]]
         rest = [it for it in items if not it[2]]
         rng.shuffle(rest)
-        items = keep + rest[:max(0, 4000 - len(keep))]
+        items = keep + rest[:max(0, cap - len(keep))]
     items += bigdecl
     nrand = 150 if run.quick else 1500
     rand_items = [(10 ** 6 + j, run.seed * 1000003 + j, 40 if run.quick else 300, 'C14' in props) for j in range(nrand)]
